@@ -75,7 +75,7 @@ func c15Text(c C15Case) string {
 var c15Targets = map[string]string{"/small": "pull", "/p": "pull", "/d1": "https://one.example.org/h", "/d2": "https://two-b.example.org/h", "/m": "pull", "/out": "https://out.example.org/h",
 	"/off": "pull", "/nodirect": "pull"}
 
-var c15Invalid = []string{"unknown-route", "sub-route", "sub-route", "relative-route", "managed-route", "selector-hint", "target-not-allowed", "target-ambiguous", "publish-off", "direct-off",
+var c15Invalid = []string{"unknown-route", "sub-route", "sub-route", "relative-route", "managed-route", "selector-hint", "target-not-allowed", "target-case", "target-ambiguous", "publish-off", "direct-off",
 	"payload-too-large", "bad-base64", "headers-too-large", "bad-header-name", "bad-header-value", "bad-received-at", "bad-next-run-at", "blank-id", "dup-in-batch",
 	"dup-in-batch-padded", "id-exists", "empty-route"}
 
@@ -217,6 +217,18 @@ func c15Build(c C15Case) (items []map[string]any, invalid map[int]string) {
 			}
 		case "target-not-allowed":
 			m["target"] = "https://evil.example.net/x"
+		case "target-case":
+			// the route's target in another letter case is not that target (a consumer asking for "pull"
+			// would never see a message stored for "PULL")
+			tgt := c15Targets[it.Route]
+			if c.Scoped {
+				tgt = "pull"
+			}
+			if up := strings.ToUpper(tgt); up != tgt {
+				m["target"] = up
+			} else {
+				kind = ""
+			}
 		case "target-ambiguous":
 			if c.Scoped {
 				kind = ""
@@ -407,6 +419,12 @@ func runC15(c C15Case, _ bool) *fOutcome {
 	if rec.Code/100 == 2 {
 		if shouldRefuse {
 			out.Failure = ffail("C15", "invalid-batch-accepted", 0, "%s", desc)
+			for _, k := range invalid {
+				if k == "target-case" {
+					// stored for a target no consumer asks for: ready, and never handed out (C05)
+					out.Failure.Prop = "C15,C05"
+				}
+			}
 			return out
 		}
 		if resp.Published != len(items) || len(added) != len(items) {
@@ -493,4 +511,23 @@ func runC15(c C15Case, _ bool) *fOutcome {
 
 func TestProp_C15_Publish(t *testing.T) {
 	frontProp(t, "C15", "TestProp_C15_Publish", genC15Case(), runC15)
+}
+
+// TestProp_C05_PublishTarget: the publish worlds for C05's share (a message accepted for a target
+// spelling no consumer uses is ready and never offered).
+func TestProp_C05_PublishTarget(t *testing.T) {
+	frontProp(t, "C05", "TestProp_C05_PublishTarget", genC15Case(), func(c C15Case, tol bool) *fOutcome {
+		for i := range c.Items {
+			if i%3 == 0 && c.Items[i].Invalid == "" {
+				c.Items[i].Invalid = "target-case"
+			}
+		}
+		out := runC15(c, tol)
+		if f := out.Failure; f != nil && f.Prop != "HARNESS" && !strings.Contains(f.Prop, "C05") {
+			out.Failure = nil
+			out.Labels["foreign-clause"] = true
+		}
+		out.NonTriv = out.Labels["invalid-target-case"]
+		return out
+	})
 }
